@@ -43,9 +43,11 @@ def unk(tag="?"):
 
 
 class Facts:
-    __slots__ = ("kind", "len", "truth", "eq", "ne", "none", "bad")
+    __slots__ = ("kind", "len", "truth", "eq", "ne", "none", "bad", "inset", "offs")
 
     def __init__(self):
+        self.inset = {}
+        self.offs = {}
         self.kind = {}
         self.len = {}
         self.truth = {}
@@ -62,6 +64,8 @@ class Facts:
         f.eq = dict(self.eq)
         f.ne = {k: set(v) for k, v in self.ne.items()}
         f.none = dict(self.none)
+        f.inset = dict(self.inset)
+        f.offs = dict(self.offs)
         f.bad = self.bad
         return f
 
@@ -81,6 +85,10 @@ class Facts:
                 ok &= self.set_ne(t, v)
         for t, v in other.none.items():
             ok &= self.set_none(t, v)
+        for t, v in other.inset.items():
+            ok &= self.set_inset(t, v)
+        for k, (lo, hi) in other.offs.items():
+            ok &= self.set_off(k[0], k[1], lo, hi)
         return ok
 
     def _fail(self, why):
@@ -121,6 +129,8 @@ class Facts:
     def set_eq(self, t, v):
         if t in self.eq and not _ceq(self.eq[t], v):
             return self._fail("eq %r vs %r" % (self.eq[t], v))
+        if t in self.inset and not any(_ceq(v, x) for x in self.inset[t]):
+            return self._fail("eq %r outside the value set" % (v,))
         if any(_ceq(v, x) for x in self.ne.get(t, ())):
             return self._fail("eq %r but known != " % (v,))
         self.eq[t] = v
@@ -130,6 +140,33 @@ class Facts:
         if t in self.eq and _ceq(self.eq[t], v):
             return self._fail("ne %r but known ==" % (v,))
         self.ne.setdefault(t, set()).add(_hk(v))
+        if t in self.inset:
+            rest = frozenset(x for x in self.inset[t] if not _ceq(x, v))
+            if not rest:
+                return self._fail("value set exhausted")
+            self.inset[t] = rest
+        return True
+
+    def set_inset(self, t, vals):
+        vals = frozenset(vals)
+        cur = self.inset.get(t)
+        new = vals if cur is None else (cur & vals)
+        if t in self.eq:
+            if not any(_ceq(self.eq[t], x) for x in new):
+                return self._fail("eq not in set")
+        new = frozenset(x for x in new if not any(_ceq(x, y) for y in self.ne.get(t, ())))
+        if not new:
+            return self._fail("empty value set")
+        self.inset[t] = new
+        return True
+
+    def set_off(self, x, base, lo, hi):
+        """len(x) - base in [lo, hi] (base is a symbolic integer term)"""
+        clo, chi = self.offs.get((x, base), (-INF, INF))
+        nlo, nhi = max(clo, lo), min(chi, hi)
+        if nlo > nhi:
+            return self._fail("offset of len(%s) from %s" % (short(x, 30), short(base, 30)))
+        self.offs[(x, base)] = (nlo, nhi)
         return True
 
     def set_none(self, t, v):
@@ -784,7 +821,10 @@ class SymEngine:
                         return any(_ceq(facts.eq[l], x) for x in vals)
                     if len(vals) == 1:
                         return self._assume_eq(l, vals[0], True, facts)
-                    return True
+                    try:
+                        return facts.set_inset(l, vals)
+                    except TypeError:
+                        return True
                 ok = True
                 for x in vals:
                     ok = ok and self._assume_eq(l, x, False, facts)
@@ -801,6 +841,34 @@ class SymEngine:
                     if op == ">=":
                         return self.refine_len(tgt, max(v, 0), INF, facts)
             return True
+        # len(x) compared with a symbolic integer base + k: difference bounds
+        if l[0] == "len" and r[0] != "len":
+            base, k = _lin(r)
+            if base is not None:
+                x = l[1]
+                if op == "<":
+                    return facts.set_off(x, base, -INF, k - 1)
+                if op == "<=":
+                    return facts.set_off(x, base, -INF, k)
+                if op == ">":
+                    return facts.set_off(x, base, k + 1, INF)
+                if op == ">=":
+                    return facts.set_off(x, base, k, INF)
+                if op == "==":
+                    return facts.set_off(x, base, k, k)
+                if op == "!=":
+                    lo, hi = facts.offs.get((x, base), (-INF, INF))
+                    if lo == hi == k:
+                        return False
+                    if lo == k:
+                        return facts.set_off(x, base, k + 1, INF)
+                    if hi == k:
+                        return facts.set_off(x, base, -INF, k - 1)
+                    return True
+        if r[0] == "len" and l[0] != "len":
+            flip = {"<": ">", "<=": ">=", ">": "<", ">=": "<=", "==": "==", "!=": "!="}
+            if op in flip:
+                return self._assume_cmp(flip[op], r, l, True, facts)
         # len(x) compared with len(y): use intervals for contradiction only
         if l[0] == "len" and r[0] == "len":
             a, b = self.len_of(l[1], facts)
@@ -1022,6 +1090,10 @@ class SymEngine:
                 f2.ne[subst(t, amap, recv)] = set(v)
             for t, v in cf.none.items():
                 f2.none[subst(t, amap, recv)] = v
+            for t, v in cf.inset.items():
+                f2.inset[subst(t, amap, recv)] = v
+            for (x, b), v in cf.offs.items():
+                f2.offs[(subst(x, amap, recv), subst(b, amap, recv))] = v
             out.append((r2, f2))
         return out
 
@@ -1048,6 +1120,17 @@ class SymEngine:
             return cases
         finally:
             self._in_progress.discard(key)
+
+
+def _lin(t):
+    """term = base + k  ->  (base, k) for a symbolic integer base"""
+    if t[0] == "bin" and t[1] in ("+", "-") and is_c(t[3]) and isinstance(t[3][1], int):
+        b, k = _lin(t[2])
+        if b is not None:
+            return b, k + (t[3][1] if t[1] == "+" else -t[3][1])
+    if t[0] in ("call", "p", "sub", "attr", "iter") and not is_c(t):
+        return t, 0
+    return None, 0
 
 
 def _as_load(t):
